@@ -12,6 +12,7 @@
 #define VF_INPUTS(X) X(int, ta, ) X(int, tb, ) X(unsigned char, na, ) X(unsigned char, nb, ) X(double, da, ) X(double, db, ) X(unsigned char, sa, [TS + 1]) X(unsigned char, sb, [TS + 1]) \
     X(unsigned char, snull, ) X(unsigned char, ka, [K + 1][TS + 1]) X(unsigned char, kb, [K + 1][TS + 1]) X(unsigned char, eq, [K + 1][K + 1]) X(unsigned char, cs, ) X(unsigned char, mode, )
 #include "vf.h"
+#include "vf_str.h"
 #ifndef VF_LIB
 #define VF_LIB "cJSON.c"
 #endif
